@@ -904,17 +904,18 @@ func (r *c13Run) evaluate(prop string) []monitorFailure {
 var c13Kinds = []string{"append", "join", "values", "heads", "get", "has", "len", "snapshot", "jsonlog", "entries", "iterator", "iter2", "iterlte", "iterappend", "setid", "multihash"}
 
 type c13Tally struct {
-	res      *result
-	prop     string
-	racelog  *c13RaceLog
-	sigs     map[string]bool
-	keys     map[string]int
-	runs     map[string]int
-	overlap  int
-	hooks    map[string]int
-	failCap  int
-	samples  int
-	maxFails int
+	setupHangs int
+	res        *result
+	prop       string
+	racelog    *c13RaceLog
+	sigs       map[string]bool
+	keys       map[string]int
+	runs       map[string]int
+	overlap    int
+	hooks      map[string]int
+	failCap    int
+	samples    int
+	maxFails   int
 }
 
 func (t *c13Tally) addFailure(f monitorFailure) {
@@ -927,7 +928,21 @@ func (t *c13Tally) addFailure(f monitorFailure) {
 // runCase executes one case, evaluates monitors, attributes fresh race reports to it
 func (t *c13Tally) runCase(c c13Case) *c13Run {
 	announce(c)
-	r := c13Setup(c)
+	if t.setupHangs >= 3 {
+		return &c13Run{c: c, hung: true} // the sequential set-up keeps hanging: nothing else can be learnt from this tree
+	}
+	var r *c13Run
+	ready := make(chan struct{})
+	go func() { r = c13Setup(c); close(ready) }()
+	select {
+	case <-ready:
+	case <-time.After(3 * c13Watchdog):
+		t.setupHangs++
+		t.res.Evaluations++
+		t.addFailure(monitorFailure{Property: t.prop, Monitor: "completion", Key: t.prop + ":deadlock", Case: c,
+			Detail: fmt.Sprintf("the sequential set-up of the case (appends and one merge on fresh logs, no concurrency yet) did not complete within %v", 3*c13Watchdog)})
+		return &c13Run{c: c, hung: true}
+	}
 	ok := r.execute()
 	t.res.Evaluations++
 	t.runs[c.Scenario+"/"+c.Mode]++
